@@ -410,7 +410,7 @@ theorem stepItem_track (r : SStruct ν) (st st' : PState ν) (it : NestedMeta) (
           · split at h
             · simp only [Except.ok.injEq] at h; subst h; simp [PState.set]
             · simp only [Except.ok.injEq] at h; subst h
-              simp [PState.push, directL_append, direct_at]
+              simp [PState.push, PState.set, directL_append, direct_at]
             · cases h
           · split at h
             · split at h
@@ -1298,7 +1298,7 @@ theorem checkMissing_off (fs fs' : List (SField ν)) (h : Pointwise OffField fs 
           | false =>
               simp only [Bool.not_false, if_true]
               cases f.fromNone with
-              | some v => exact ih (st.set f.ident { val := some v, many := (st.slot f.ident).many })
+              | some v => exact ih (st.set f.ident { val := some v, many := (st.slot f.ident).many, occ := (st.slot f.ident).occ })
               | none =>
                   have : (offSt st).push (Err.new (.missingField f.name))
                       = offSt (st.push (Err.new (.missingField f.name))) := by
